@@ -116,6 +116,7 @@ func main() {
 		}(i, con)
 	}
 	wg.Wait()
+	partialRun = *only != ""
 	rep := buildReport(eng, *prop, *tier, results, *verifDir, start)
 	rep.print(*verbose)
 	if *prop != "" {
@@ -128,6 +129,8 @@ func main() {
 }
 
 // ---------------------------------------------------------------------------
+
+var partialRun bool
 
 type NamedObl struct {
 	Name      string   `json:"name"`
@@ -298,7 +301,7 @@ func buildReport(eng *Engine, prop, tier string, units []*UnitResult, verifDir s
 		r.violations = append(r.violations, fmt.Sprintf("VIOLATION property=%s replay=%s obligation=%s%s", prop, replay, no.Name, suffix))
 	}
 	// ledger: obligations that disappeared
-	if prop != "" {
+	if prop != "" && !partialRun {
 		for _, n := range ledger[prop] {
 			if !seen[n] {
 				r.undecided = append(r.undecided, fmt.Sprintf("UNDECIDED property=%s %s (obligation no longer generated: contract target or keyed site changed)", prop, n))
